@@ -140,3 +140,22 @@ def c06(work, tier, seed, replay):
                          "packets; each run through FromBytes->ToBytes->FromBytes->ToBytes; non-trivial = accepted by the decoder; distinct "
                          "by SHA-256 of the input" % (6 if tier == "thorough" else 5), False)
     return dict(violations=viol, coverage=cov, assumptions=ASSUME_CODEC)
+
+
+@prop("C18")
+def c18(work, tier, seed, replay):
+    if replay:
+        return replay_file(work, "Trace_RawUdp", replay)
+    vh = common.build_vh(work)
+    mc = common.require_mc(common.tlc(work, "MC_RawUdp", cfg="MC_RawUdp" + ("_thorough" if tier == "thorough" else ""), workers=8, timeout=2400), "MC_RawUdp")
+    tr, stats = common.vh_gen(work, vh, "c18", seed, tier)
+    viol, tstates, n = validate(work, "Trace_RawUdp", tr, stats, procs=8 if tier == "quick" else 12)
+    cov = codec_coverage([mc], stats, tstates, n,
+                         "write: every payload length 0..64 with all-zero/all-ones/0x01/random fill, boundary lengths to 1500, a sweep of two-byte "
+                         "payloads (including the one whose UDP checksum computes to zero), random payloads/addresses/ports; read: sequences of "
+                         "1..5 frames built by the harness (IHL 5..15, padding, total length short/long, non-UDP, non-IPv4, truncated, other "
+                         "port/address, bad UDP length) for bound port with and without bound address; non-trivial = non-empty payload / "
+                         "at least two frames; distinct by SHA-256 of the case", False)
+    return dict(violations=viol, coverage=cov, assumptions=ASSUME_CODEC[:1] + [
+        "a zero-length read from the underlying connection is its EOF convention and not a frame (never generated)",
+        "RFC 768: when the UDP checksum computes to zero both 0xFFFF and 0x0000 (no checksum) are accepted on the wire"])
